@@ -65,6 +65,8 @@ type L1Env struct {
 	Auth    string // gov authority
 	Hook    ophosttypes.BridgeHook
 	Keys    map[string]*storetypes.KVStoreKey
+	EnvOp   func(ctx sdk.Context, o L1Op) error
+	AdminOf func(ctx sdk.Context, port, ch string) (uint64, bool)
 }
 
 type noHook struct{}
